@@ -269,6 +269,9 @@ func TestC09(t *testing.T) {
 			}
 			src, lines := mlua.Render(prog.Block, ch)
 			res := progcheck.Model(prog.Block, lines, specs)
+			if r == 0 {
+				progcheck.ClassifyGen(rec, prog, res)
+			}
 			if res.Unspecified != "" || res.Budget || res.OrderSensitive {
 				rec.Discard("unspecified/budget (random part)")
 				return
